@@ -114,42 +114,6 @@ def reference_of(text):
     return forms, R.reference(forms, fuel=400000)
 
 
-def install_thread_prims():
-    orig = R.install_prims
-
-    def patched(m):
-        orig(m)
-        g = m.globals.vars
-
-        class Handle:
-            def __init__(self, v):
-                self.v = v
-
-        def spawn(mach, args, k):
-            return ("apply", args[0], [], ("prim-k", _wrap(Handle), k))
-
-        def _wrap(cls):
-            def gen():
-                v = yield None
-                return cls(v)
-            # a generator primed to receive the thunk's value
-            g_ = gen()
-            next(g_)
-            return g_
-        g[R.Sym("spawn-native-thread")] = [R.Prim("spawn-native-thread", None, 1, 1, special=spawn)]
-
-        def join(h):
-            if not isinstance(h, Handle):
-                raise R.SchemeError(R.ErrorObj("thread-join!: not a thread"))
-            return h.v
-        g[R.Sym("thread-join!")] = [R.Prim("thread-join!", join, 1, 1)]
-        g[R.Sym("immutable-vector-push")] = [R.Prim("immutable-vector-push", lambda v, x: R.IVector(list(v.items) + [x]) if isinstance(v, R.IVector) else (_ for _ in ()).throw(R.SchemeError(R.ErrorObj("immutable-vector-push"))), 2, 2)]
-    R.install_prims = patched
-
-
-install_thread_prims()
-
-
 def main(tier):
     rep = core.Reporter("C03", tier)
     n = 2500 if tier == "quick" else 150000
